@@ -668,6 +668,8 @@ void OPNMIDIplay::realTime_Controller(uint8_t channel, uint8_t type, uint8_t val
 {
     if(static_cast<size_t>(channel) >= m_midiChannels.size())
         channel = channel % 16;
+    if(value > 127) // MIDI data bytes are 7-bit, volume models index their tables by these values
+        value = 127;
     switch(type)
     {
     case 1: // Adjust vibrato
@@ -814,6 +816,8 @@ void OPNMIDIplay::realTime_PatchChange(uint8_t channel, uint8_t patch)
 {
     if(static_cast<size_t>(channel) >= m_midiChannels.size())
         channel = channel % 16;
+    if(patch > 127) // A bank has 128 instruments
+        patch = 127;
     m_midiChannels[channel].patch = patch;
 }
 
